@@ -6,3 +6,5 @@ package raft
 func verifPoint(point string, args ...interface{}) {}
 
 func verifReplPark(r *replication, req *appendReq) bool { return false }
+
+func verifMaxAppend(n uint64) uint64 { return n }
